@@ -827,6 +827,15 @@ def base_view_lines(R: Run, ops: Ops, g, cls: str):
         R.corr(f"c02 extent {gs}", lambda: list_s([f"{frac_s(px)};{frac_s(py)}" for px, py in g.extent.exterior.points]),
                sig=f"extent|{cls}")
     R.corr(f"c02 bbox {gs}", lambda: " ".join(frac_s(v) for v in g.boundingbox.bbox), sig=f"bbox|{cls}")
+    R.corr(f"c02 align {gs}", lambda: " ".join(frac_s(v) for v in g.alignment.xy), sig=f"alignment|{cls}")
+    if ny > 0 and nx > 0 and det != 0 and (g.crs is None or crs_tag(g.crs) == 1):
+        def fm():
+            (ya, xa), (yb, xb) = g.map_bounds()
+            return f"{frac_s(ya)} {frac_s(xa)} {frac_s(yb)} {frac_s(xb)}"
+        R.corr(f"c02 mapb {gs}", fm, sig=f"map_bounds|{cls}")
+    nb = rng.choice([1, 2, 3, 5, 9])
+    if ny % 8 == 0 and nx % 8 == 0:  # linspace values exact in float32
+        R.corr(f"c02 bnd {gs} {nb}", lambda: list_s([f"{frac_s(float(x))};{frac_s(float(y))}" for x, y in g.boundary(nb)]), sig=f"boundary|n={nb}")
 
     def fc():
         co = g.coordinates
@@ -1344,6 +1353,11 @@ def falsy_sweep(R: Run, ops: Ops, cxE: Ctx, cxF: Ctx):
                         check_accessors(cxF, g2, gctx, only=("pix2wld", "approx", "extent"))
             gcp_step(R, ops, cxE, cxF, g, "ztos", gctx, fixed=(ny, nx))
             gcp_step(R, ops, cxE, cxF, g, "zton", gctx, fixed=(max(ny, nx),))
+            # gcps() of views whose pixel-side affine has a dyadic inverse: zoom, then crop, then pad
+            for v in (g, g.zoom_out(2), g.zoom_out(2)[1:3, 2:5], g.zoom_out(0.5)[1:, 2:].pad(3, 1)):
+                cps = [f"{frac_s(px)};{frac_s(py)}" for px, py in mapping._pix]
+                R.corr(f"c02 gcps {enc_gb(v)} " + list_s(cps),
+                       lambda: list_s([f"{frac_s(float(gp.col))};{frac_s(float(gp.row))}" for gp in v.gcps()]), sig="gcp|gcps")
 
 
 # ------------------------------------------------------------------ index / region kinds of __getitem__
@@ -1427,7 +1441,7 @@ def region_vertices(roi):
     return pts, roi.crs, False
 
 
-def region_oracle(cx: Ctx, g, roi, kind, got, gctx=None):
+def region_oracle(cx: Ctx, g, roi, kind, got, gctx=None, clip=True):
     """two-sided, in pixels of the parent: gbox[region] is the smallest whole-pixel window that contains the region's
     pixel-space bounding box, clipped to the parent, at least one pixel; for a window of the parent: the window"""
     R = cx.R
@@ -1436,7 +1450,8 @@ def region_oracle(cx: Ctx, g, roi, kind, got, gctx=None):
     det = A[0] * A[4] - A[1] * A[3]
     pts, rcrs, closed = region_vertices(roi)
     desc = {"kind": kind, "crs": crs_tag(rcrs), "pts": [f"{frac_s(x)};{frac_s(y)}" for x, y in pts][:12]}
-    case = {"op": "region", "gbox": enc_gb(g), "args": desc}
+    case = {"op": "region" if clip else "enclosing", "gbox": enc_gb(g), "args": desc}
+    keyp = "region" if clip else "enclosing"
     if det == 0:
         return
     other_crs = rcrs is not None and g.crs is not None and rcrs != g.crs
@@ -1470,7 +1485,7 @@ def region_oracle(cx: Ctx, g, roi, kind, got, gctx=None):
             mp = [(F(float(x)), F(float(y))) for x, y in pts]
     lo = (min(p[0] for p in mp), min(p[1] for p in mp))
     hi = (max(p[0] for p in mp), max(p[1] for p in mp))
-    if hi[0] <= 0 or hi[1] <= 0 or lo[0] >= nx or lo[1] >= ny:
+    if clip and (hi[0] <= 0 or hi[1] <= 0 or lo[0] >= nx or lo[1] >= ny):
         return  # region does not meet the parent: nothing documented
     # the view must be a whole-pixel window of the parent
     A2 = fa(got._affine)
@@ -1478,7 +1493,7 @@ def region_oracle(cx: Ctx, g, roi, kind, got, gctx=None):
     tx, ty = T[2], T[5]
     okwin = all(abs(T[i] - v) <= F(1, 10**9) for i, v in ((0, 1), (1, 0), (3, 0), (4, 1))) and \
         abs(tx - round(tx)) <= F(1, 10**6) and abs(ty - round(ty)) <= F(1, 10**6) and got.crs == g.crs
-    R.oracle(okwin, "region-not-a-window", case, f"gbox[{kind}] is not a whole-pixel window of the parent (pixel map {tuple(map(float, T))})")
+    R.oracle(okwin, keyp + "-not-a-window", case, f"gbox[{kind}] is not a whole-pixel window of the parent (pixel map {tuple(map(float, T))})")
     if not okwin:
         return
     tx, ty = round(tx), round(ty)
@@ -1488,19 +1503,20 @@ def region_oracle(cx: Ctx, g, roi, kind, got, gctx=None):
     eps = F(1, 10**9) * (1 + world_scale(A, (ny, nx)) / max(smin, F(1, 10**300)) / 10**3) + slack_px
 
     def side_ok(got_lo, got_hi, lo_, hi_, n):
-        ok_lo = any(got_lo == max(0, math.floor(v)) for v in (lo_, lo_ - eps, lo_ + eps))
-        want_hi = {min(n, math.ceil(v)) for v in (hi_, hi_ - eps, hi_ + eps)}
-        want_lo = {max(0, math.floor(v)) for v in (lo_, lo_ - eps, lo_ + eps)}
+        cl_lo = (lambda v: max(0, v)) if clip else (lambda v: v)
+        cl_hi = (lambda v: min(n, v)) if clip else (lambda v: v)
+        want_hi = {cl_hi(math.ceil(v)) for v in (hi_, hi_ - eps, hi_ + eps)}
+        want_lo = {cl_lo(math.floor(v)) for v in (lo_, lo_ - eps, lo_ + eps)}
         if slack_px:
             want_hi |= {v + d for v in list(want_hi) for d in (-1, 1)}
             want_lo |= {v + d for v in list(want_lo) for d in (-1, 1)}
         cands = {(a, max(1, b - a)) for a in want_lo for b in want_hi}
         return (got_lo, got_hi - got_lo) in cands
     ok = side_ok(tx, tx + nx2, lo[0], hi[0], nx) and side_ok(ty, ty + ny2, lo[1], hi[1], ny)
-    R.oracle(ok, "region-window", case,
-             f"{type(g).__name__}{(ny, nx)}[{kind}] = rows {ty}:{ty + ny2}, cols {tx}:{tx + nx2}; the region spans pixel rows "
+    R.oracle(ok, keyp + "-window", case,
+             f"{type(g).__name__}{(ny, nx)}" + (f"[{kind}]" if clip else f".enclosing({kind})") + f" = rows {ty}:{ty + ny2}, cols {tx}:{tx + nx2}; the region spans pixel rows "
              f"{float(lo[1]):.6f}..{float(hi[1]):.6f}, cols {float(lo[0]):.6f}..{float(hi[0]):.6f} of the parent",
-             sig=f"region|{kind}")
+             sig=f"{keyp}|{kind}")
 
 
 def gen_geo_parent(rng, GB, Affine, tag=None):
@@ -1593,6 +1609,17 @@ def region_stream(R: Run, ops: Ops, cxE: Ctx, cxF: Ctx):
             res.append(o)
             return enc_gb(o)
         R.corr(line, fn, sig=f"region|{kind}")
+        if kind in ("Geometry-same-crs", "BoundingBox-same-crs"):
+            rese = []
+
+            def fe():
+                o = g.enclosing(roi)
+                rese.append(o)
+                return enc_gb(o)
+            vs2, _, _ = region_vertices(roi)
+            R.corr(f"c02 encl {enc_gb(g)} " + list_s([f"{frac_s(x)};{frac_s(y)}" for x, y in vs2]), fe, sig=f"enclosing|{kind}")
+            if rese:
+                region_oracle(cxE, g, roi, kind, rese[0], clip=False)
         if res and kind != "GeoBox-no-crs":
             region_oracle(cxE, g, roi, kind, res[0])
         elif res:
@@ -1637,6 +1664,11 @@ def region_stream(R: Run, ops: Ops, cxE: Ctx, cxF: Ctx):
             R.oracle(False, "region-raised", {"op": "region", "gbox": enc_gb(g), "args": {"kind": kind}}, f"{type(e).__name__}: {e}")
             continue
         region_oracle(cxF, g, roi, kind + "|parent-" + gk, got)
+        if kind.startswith(("Geometry", "BoundingBox")) and getattr(roi, "crs", None) is not None:
+            try:
+                region_oracle(cxF, g, roi, kind + "|parent-" + gk, g.enclosing(roi), clip=False)
+            except Exception as e:  # pylint: disable=broad-except
+                R.oracle(False, "enclosing-raised", {"op": "enclosing", "gbox": enc_gb(g), "args": {"kind": kind}}, f"{type(e).__name__}: {e}")
         if kind == "GeoBox-window":
             # In exact arithmetic g[g[roi]] == g[roi] (theorem crop_window_of_self).  In doubles the projected corners
             # land at k +- 1e-12 px and floor/ceil add a pixel on ~2/3 of arbitrary float grids: a genuine IEEE-level
